@@ -264,7 +264,7 @@ def r24e(ctx, run):
     fn = ctx.syn.fn("parse_expr_bp", EX)
     helpers = {f.qual.rsplit("::", 1)[-1]: f for f in ctx.syn.fns_in(EX) if f.body is not None and not f.in_test}
     reps = ["||", "&&", "==", "+", "*"]       # one operator per level
-    PREFIX = ("^", "-", "!", "~")             # at operand position: reference, negation, not, complement
+    PREFIX = ("^", "-", "!", "~", "+")        # at operand position: reference, negation, not, complement, plus
     level = {op: i for i, ops in enumerate(LEVELS) for op in ops}
 
     def reference(tokens):
@@ -378,7 +378,10 @@ def r24e(ctx, run):
                        methods={"at": m_at, "at_set": m_at_set, "at_ahead": m_at_ahead, "bump": m_bump, "start": m_start, "complete": complete, "precede": precede,
                                 "at_eof": lambda i, r, a: cur() is None, "kind": m_kind, "peek": m_kind,
                                 "contains": lambda i, r, a: (a[0].last if isinstance(a[0], Variant) else a[0]) in r if isinstance(r, frozenset) else False,
-                                "expected_syntax_name": lambda i, r, a: Term("guard")},
+                                "expected_syntax_name": lambda i, r, a: Term("guard"),
+                                # every evaluated token sequence is a well-formed expression: reaching an error report is already the wrong parse
+                                **{m_: (lambda m__: (lambda i, r, a: (_ for _ in ()).throw(Panic("a syntax error is reported (%s) on a well-formed expression" % m__))))(m_)
+                                   for m_ in ("error", "error_with_skip", "error_with_no_skip", "error_with_recovery_set", "error_with_recovery_set_no_default")}},
                        funcs={"TokenSet::new": lambda i, a: frozenset(x.last for x in a[0]), "parse_lhs": parse_lhs, "Some": lambda i, a: a[0]})
         # token-set constants of the file
         for _f, citem in ctx.syn.items_of("const", EX):
@@ -437,6 +440,13 @@ def r24e(ctx, run):
     # prefix operators: the operand of a prefix operator does not take the trailing `^`; binary operators bind looser than any prefix
     for pre in PREFIX:
         seqs += [[pre, "a", "^"], [pre, "a", "^", "^"], [pre, pre, "a", "^"], ["a", "+", pre, "b", "^"], [pre, "a", "*", "b"], [pre, "a", "^", "||", "b"], ["a", "*", pre, "b", "^", "+", "c"]]
+    # a binary + or - followed by prefix operators (also the same sign, also two of them): `a - - -b` is a - (-(-b))
+    for op in ("+", "-", "*"):
+        for p1 in PREFIX:
+            seqs.append(["a", op, p1, "b"])
+            for p2 in PREFIX:
+                seqs.append(["a", op, p1, p2, "b"])
+    seqs += [["a", "*", "c", "-", "-", "-", "b", "*", "c"], ["-", "-", "-", "-", "a"]]
     for ops in LEVELS:
         if len(ops) > 1:
             seqs.append(["a", ops[0], "b", ops[-1], "c"])
@@ -448,7 +458,7 @@ def r24e(ctx, run):
         try:
             got = run_parser(toks)
         except (Panic, CannotEstablish) as c:
-            got = "cannot establish: %s" % getattr(c, "what", c)
+            got = ("%s" if isinstance(c, Panic) else "cannot establish: %s") % getattr(c, "what", c)
         if got != want:
             bad = (toks, got, want)
             break
@@ -456,7 +466,7 @@ def r24e(ctx, run):
         raise LookupError("token sequences: %d" % n)
     run.check(bad is None, fn.site(), "parse_expr_bp builds the documented tree on %d token sequences (level pairs, postfix `^` in every position)" % n, "parse_expr_bp", "trees",
               fn.file, fn.ln, "`%s` parses as %s; the documented precedence gives %s: %s" % (
-                  " ".join(bad[0]), show(bad[1]) if not isinstance(bad[1], str) or not bad[1].startswith("cannot") else bad[1], show(bad[2]),
+                  " ".join(bad[0]), show(bad[1]) if not isinstance(bad[1], str) or not (bad[1].startswith("cannot") or bad[1].startswith("a syntax error")) else bad[1], show(bad[2]),
                   ("a prefix operator takes its operand without the operand's trailing `^` (`^foo^` is `(^foo)^`)" if bad[0][0] in PREFIX or any(x in PREFIX and j > 0 and bad[0][j - 1] in level for j, x in enumerate(bad[0])) else "a postfix operator belongs to the operand it follows, not to the binary expression") if "^" in bad[0] else "tighter levels nest deeper, equal levels nest to the left") if bad else "")
 
 
